@@ -493,20 +493,19 @@ func (f Index) Last(prefix []byte) (i Item, err error) {
 	// next key if the key that it seeks to is not found
 	// and by getting the previous key, the last one for the
 	// actual prefix is found
-	nextPrefix := incByteSlice(prefix)
-	l := len(prefix)
+	totalPrefix := append(f.prefix, prefix...)
+	nextPrefix := bytesIncrement(totalPrefix)
 
-	if l > 0 && nextPrefix != nil {
+	if nextPrefix != nil {
 		it.Seek(driver.Key{
 			Prefix: indexKeyPrefixLength,
-			Data:   append(f.prefix, nextPrefix...),
+			Data:   nextPrefix,
 		})
 		it.Prev()
 	} else {
 		it.Last()
 	}
 
-	totalPrefix := append(f.prefix, prefix...)
 	return f.itemFromIterator(it, totalPrefix)
 }
 
